@@ -858,4 +858,28 @@ Definition remove_key_multi (t : tree) (k : Z) : tree * nat :=
     let n := count_from (S (length (contents t))) t it k in
     (fst (remove_range t lb (lb + n)), n).
 
+(* ---------- Insert(begin, end): hinted adds while the input stays ordered behind the previous position ---------- *)
+Definition insert_next (t : tree) (pos : iter) (k : Z) : tree * iter :=
+  match deref t pos with
+  | None => (t, pos)
+  | Some prevKey =>
+      let np := next t pos in
+      if (k <? prevKey)%Z || negb (is_greater t np k) then
+        let '(t', pos', _) := insert t k in (t', pos')
+      else if multi || (prevKey <? k)%Z then add t np k
+      else (t, pos)
+  end.
+
+Fixpoint insert_loop (ks : list Z) (t : tree) (pos : iter) : tree :=
+  match ks with
+  | [] => t
+  | k :: ks' => let '(t', pos') := insert_next t pos k in insert_loop ks' t' pos'
+  end.
+
+Definition insert_range (t : tree) (ks : list Z) : tree :=
+  match ks with
+  | [] => t
+  | k0 :: ks' => let '(t1, pos, _) := insert t k0 in insert_loop ks' t1 pos
+  end.
+
 End Model.
